@@ -1481,6 +1481,53 @@ func opMapFilter(h *Hist) {
 	}
 	ff := func(v any) bool { simrt.Yield(); k++; return keepFn(fn, k-1, conv(v)) }
 	var l at.List
+	if ord == 0 && name != "MapAsync" && h.d.Draw("nil-callback", 3) == 0 {
+		// nothing will be visited: a nil callback is never invoked, the call is as valid as with any other function
+		h.counters["probe:nil-callback-never-invoked"]++
+		p, msg := h.call(func() {
+			ls := n.list()
+			switch name {
+			case "Map":
+				l = ls.Map(nil)
+			case "MapValues":
+				l = ls.MapValues(nil)
+			case "MapObjects":
+				l = ls.MapObjects(nil)
+			case "MapLists":
+				l = ls.MapLists(nil)
+			case "MapStrings":
+				l = ls.MapStrings(nil)
+			case "MapBools":
+				l = ls.MapBools(nil)
+			case "MapInts":
+				l = ls.MapInts(nil)
+			case "MapFloats":
+				l = ls.MapFloats(nil)
+			case "Filter":
+				l = ls.Filter(nil)
+			case "FilterObjects":
+				l = ls.FilterObjects(nil)
+			case "FilterLists":
+				l = ls.FilterLists(nil)
+			case "FilterStrings":
+				l = ls.FilterStrings(nil)
+			case "FilterInts":
+				l = ls.FilterInts(nil)
+			case "FilterFloats":
+				l = ls.FilterFloats(nil)
+			}
+		})
+		h.tracef("%s.%s(nil callback, nothing to visit)", n.Name, name)
+		if !h.mustNotPanic(p, msg) {
+			return
+		}
+		if !h.bindResult(r, l, h.curOwner) {
+			return
+		}
+		h.derive(r, name, n)
+		h.heapCheck()
+		return
+	}
 	p, msg := h.call(func() {
 		ls := n.list()
 		switch name {
